@@ -139,3 +139,16 @@ package inverted
 //@   ensures err == nil && operator == "lessThanOrEquals" ==> ncalls(RangeScan) == 1 && callarg(RangeScan, 1, 2) == callres(toByteSortable, 1, 0) && len(callarg(RangeScan, 1, 1)) == 0 && callarg(RangeScan, 1, 3)
 //@   ensures err == nil && operator == "inRange" ==> ncalls(RangeScan) == 1 && callarg(RangeScan, 1, 1) == callres(toByteSortable, 1, 0) && callarg(RangeScan, 1, 2) == callres(toByteSortable, 2, 0) && callarg(RangeScan, 1, 3)
 //@   ensures err == nil && (operator == "greaterThan" || operator == "greaterThanOrEquals" || operator == "lessThan" || operator == "lessThanOrEquals" || operator == "inRange") ==> ncalls(PrefixScan) == 0 && ncalls(ForEach) == 0
+
+// array search: every query element is looked up with "equals" on itself, the per-element
+// sets are intersected for containsAll and united for containsAny, anything else is refused
+//@ func (*IndexInvertedArray).Search
+//@   property C02
+//@   safety -overflow -nil
+//@   before Search requires arg1 == arg2 && arg3 == "equals"
+//@   ensures len(query) == 0 ==> result0 == nil && err == nil && ncalls(Search) == 0
+//@   ensures len(query) > 1 && operator != "containsAll" && operator != "containsAny" ==> err != nil
+//@   ensures err == nil && len(query) > 1 && operator == "containsAll" ==> ncalls(FastAnd) == 1 && ncalls(FastOr) == 0 && result0 == callres(FastAnd, 1, 0)
+//@   ensures err == nil && len(query) > 1 && operator == "containsAny" ==> ncalls(FastOr) == 1 && ncalls(FastAnd) == 0 && result0 == callres(FastOr, 1, 0)
+//@   ensures len(query) == 1 ==> ncalls(FastAnd) == 0 && ncalls(FastOr) == 0
+//@   loop 1 invariant rangeindex >= -1 && rangeindex < len(query) && len(resList) == len(query) && ncalls(FastAnd) == 0 && ncalls(FastOr) == 0
